@@ -697,10 +697,10 @@ impl PlainDate {
         //     c. If ISODateTimeWithinLimits(isoDateTime) is false, throw a RangeError exception.
         //     d. Let epochNs be ? GetEpochNanosecondsFor(timeZone, isoDateTime, compatible).
         let epoch_ns = if let Some(time) = plain_time {
-            let result_iso = IsoDateTime::new(self.iso, time.iso);
+            let result_iso = IsoDateTime::new(self.iso, time.iso)?;
 
             tz.get_epoch_nanoseconds_for(
-                result_iso.unwrap_or_default(),
+                result_iso,
                 Disambiguation::Compatible,
                 provider,
             )?
